@@ -381,7 +381,7 @@ func (r *Runner) advSoundness(l *Line) lineResult {
 		fmt.Printf("##HANG\n")
 		os.Exit(3)
 	}
-	wd := newWatchdog(nw, 20*time.Second, hang)
+	wd := newWatchdog(nw, 60*time.Second, hang)
 	for wi := 0; wi < nw; wi++ {
 		wg.Add(1)
 		go func(wi int) {
@@ -567,7 +567,7 @@ func (r *Runner) advTotality(l *Line) lineResult {
 	var mu sync.Mutex
 	var wg sync.WaitGroup
 	var calls, rejectedUpdates atomic.Int64
-	budget := 20 * time.Second
+	budget := 60 * time.Second
 	hang := func(c *AdvCase) {
 		mu.Lock()
 		f := Fail{Props: []string{"C04"}, Inst: c.API, Cat: "hang", What: fmt.Sprintf("call did not return within %v", budget), Case: c}
@@ -884,9 +884,9 @@ func replayAdvOne(cfg Config, v *Violation) int {
 		}
 		fmt.Println("NOT-REPRODUCED (", out, ")")
 		return 0
-	case <-time.After(20 * time.Second):
+	case <-time.After(60 * time.Second):
 		if v.Fail.Cat == "hang" {
-			fmt.Printf("REPRODUCED property=%s api=%s hang: no return within 20s\n", v.Property, c.API)
+			fmt.Printf("REPRODUCED property=%s api=%s hang: no return within 60s\n", v.Property, c.API)
 			return 1
 		}
 		fmt.Println("NOT-REPRODUCED (hang instead of", v.Fail.Cat, ")")
